@@ -7,7 +7,11 @@
      - Store checks filepath.Dir(path) instead of the first result of filepath.Split(path)
        (for a bare file name Split gives "" and os.Stat("") fails);
      - Store drops the loader's cache before it writes (the cache is keyed on the file's
-       modification time only and a second Store may land on the same tick).
+       modification time only and a second Store may land on the same tick);
+     - the cache keeps a private deep copy and a cache hit returns a copy (Load used to hand out
+       the cached pointer): values are not shared with the caller, which is what a functional
+       model says anyway - the operation OScribble (the caller overwrites everything it passed
+       to Store or got from Load) is therefore a no-op, and the correspondence runs it for real.
 
    External code enters as Section variables: encoding/base64 (StdEncoding) and
    encoding/json (Marshal / Unmarshal of the four-string struct).  An executable Gallina
@@ -62,6 +66,13 @@ Definition salt_dec (buf : bytes) : outcome Z :=
 Definition cont (b : N) : bool := (128 <=? b) && (b <=? 191).
 Definition inr (lo hi b : N) : bool := (lo <=? b) && (b <=? hi).
 
+(* admissible second byte after the lead byte of a 3- resp. 4-byte sequence (no overlong forms,
+   no surrogates, nothing above U+10FFFF) *)
+Definition sec3 (a b : N) : bool :=
+  if a =? 224 then inr 160 191 b else if a =? 237 then inr 128 159 b else cont b.
+Definition sec4 (a b : N) : bool :=
+  if a =? 240 then inr 144 191 b else if a =? 244 then inr 128 143 b else cont b.
+
 Fixpoint utf8_valid (s : bytes) : bool :=
   match s with
   | [] => true
@@ -71,25 +82,64 @@ Fixpoint utf8_valid (s : bytes) : bool :=
       match r with b :: r' => cont b && utf8_valid r' | _ => false end
     else if inr 224 239 a then
       match r with
-      | b :: c :: r' =>
-        (if a =? 224 then inr 160 191 b else if a =? 237 then inr 128 159 b else cont b)
-        && cont c && utf8_valid r'
+      | b :: c :: r' => sec3 a b && cont c && utf8_valid r'
       | _ => false
       end
     else if inr 240 244 a then
       match r with
-      | b :: c :: d :: r' =>
-        (if a =? 240 then inr 144 191 b else if a =? 244 then inr 128 143 b else cont b)
-        && cont c && cont d && utf8_valid r'
+      | b :: c :: d :: r' => sec4 a b && cont c && cont d && utf8_valid r'
       | _ => false
       end
     else false
   end.
 
+(* What encoding/json does to a Go string when it marshals it (encodeState.string): the string is
+   walked with utf8.DecodeRuneInString; wherever that reports (RuneError, 1) - a byte at which no
+   valid sequence starts - the byte is replaced by U+FFFD (EF BF BD) and the walk goes on at the
+   next byte.  Valid strings are unchanged (coerce_valid_id).  Unmarshal gives the coerced string. *)
+Definition fffd : bytes := [239; 191; 189].
+
+Fixpoint coerce_utf8 (s : bytes) : bytes :=
+  match s with
+  | [] => []
+  | a :: r =>
+    if a <? 128 then a :: coerce_utf8 r
+    else if inr 194 223 a then
+      match r with
+      | b :: r' => if cont b then a :: b :: coerce_utf8 r' else fffd ++ coerce_utf8 r
+      | [] => fffd ++ coerce_utf8 r
+      end
+    else if inr 224 239 a then
+      match r with
+      | b :: c :: r' =>
+        if sec3 a b && cont c then a :: b :: c :: coerce_utf8 r' else fffd ++ coerce_utf8 r
+      | _ => fffd ++ coerce_utf8 r
+      end
+    else if inr 240 244 a then
+      match r with
+      | b :: c :: d :: r' =>
+        if sec4 a b && cont c && cont d then a :: b :: c :: d :: coerce_utf8 r'
+        else fffd ++ coerce_utf8 r
+      | _ => fffd ++ coerce_utf8 r
+      end
+    else fffd ++ coerce_utf8 r
+  end.
+
 Definition tsf_valid (t : tsf) : bool :=
   utf8_valid (t_key t) && utf8_valid (t_hash t) && utf8_valid (t_salt t) && utf8_valid (t_host t).
 
-(* what a stored session may be: any bytes, any int64, any (valid UTF-8) string *)
+Definition coerce_tsf (t : tsf) : tsf :=
+  mkTsf (coerce_utf8 (t_key t)) (coerce_utf8 (t_hash t)) (coerce_utf8 (t_salt t)) (coerce_utf8 (t_host t)).
+
+(* a session as it comes back when its host name is not valid UTF-8 *)
+Definition coerce_session (s : session) : session :=
+  mkSession (s_key s) (s_hash s) (s_salt s) (coerce_utf8 (s_host s)).
+
+(* any bytes, any int64; nothing asked of the host name *)
+Definition session_bytes_ok (s : session) : bool :=
+  bytes_ok (s_key s) && bytes_ok (s_hash s) && int64_ok (s_salt s).
+
+(* what a stored session may be for the round trip to hold: any bytes, any int64, any valid UTF-8 string *)
 Definition session_ok (s : session) : bool :=
   bytes_ok (s_key s) && bytes_ok (s_hash s) && int64_ok (s_salt s) && utf8_valid (s_host s).
 
@@ -203,6 +253,9 @@ Inductive op :=
                                       this loader lives on with whatever it has cached *)
 | OForeign (s : session) (t : N)   (* another process / another loader on the same path stores s (complete file,
                                       modification time t); this loader's cache is kept *)
+| OScribble                        (* the caller overwrites the bytes of every session value it passed to Store or
+                                      got from Load so far; the (fixed) code shares no memory with its caller,
+                                      so nothing changes *)
 | OClient (host : bytes)           (* NewMTProto(Config{AuthKeyFile: path, ServerHost: host}) : observe *)
 | OClientSave (host : bytes) (t : N). (* the same, then m.SaveSession(); afterwards a new loader *)
 
@@ -324,6 +377,7 @@ Section Codec.
     | OForeign s t =>
       (* the other loader's Store: same directory test, whole-file write; our loader untouched *)
       let '(_, fs', _) := store fs (fresh (l_path l)) s t in (fs', l, ObsNone)
+    | OScribble => (fs, l, ObsNone)
     | OClient host => (fs, l, ObsClient (fst (new_mtproto fs (l_path l) host)))
     | OClientSave host t =>
       let '(r, lc) := new_mtproto fs (l_path l) host in
@@ -364,6 +418,7 @@ Section Codec.
     | OTear k _ =>
       (match st with IAbsent => IAbsent | IFile s n => IFile s (Nat.min k n) end, ObsNone)
     | OForeign s _ => (IFile s (length (render s)), ObsNone)
+    | OScribble => (st, ObsNone)
     | OClient host => (st, ObsClient (client_decide host (ideal_load st)))
     | OClientSave host _ =>
       match client_decide host (ideal_load st) with
@@ -377,6 +432,48 @@ Section Codec.
     match ops with
     | [] => []
     | o :: r => let '(st', ob) := ideal_step st o in ob :: ideal_run st' r
+    end.
+
+  (* The reference store together with the two clock facts the modification-time keyed cache
+     depends on: the time the file carries, and the time the living loader cached at (None = it
+     has nothing cached).  A successful Load caches at the file's time; the loader's own Store,
+     a restart, a crash drop the cache. *)
+  Record tstate := mkT { ts_st : istate; ts_mtime : N; ts_cached_at : option N }.
+
+  Definition file_time_after (st : istate) (old t : N) : N :=
+    match st with IAbsent => old | IFile _ _ => t end.
+
+  Definition tstep (ts : tstate) (o : op) : tstate :=
+    let st' := fst (ideal_step (ts_st ts) o) in
+    match o with
+    | OStore _ t => mkT st' t None
+    | OLoad =>
+      mkT st' (ts_mtime ts)
+          (match ideal_load (ts_st ts) with LOk _ => Some (ts_mtime ts) | _ => ts_cached_at ts end)
+    | OFresh => mkT st' (ts_mtime ts) None
+    | OCrash _ t => mkT st' (file_time_after (ts_st ts) (ts_mtime ts) t) None
+    | OExt _ t => mkT st' t None
+    | OTear _ t => mkT st' (file_time_after (ts_st ts) (ts_mtime ts) t) (ts_cached_at ts)
+    | OForeign _ t => mkT st' t (ts_cached_at ts)
+    | OScribble | OClient _ => mkT st' (ts_mtime ts) (ts_cached_at ts)
+    | OClientSave host t =>
+      mkT st' (match client_decide host (ideal_load (ts_st ts)) with Ok _ => t | _ => ts_mtime ts end) None
+    end.
+
+  (* The code's actual test (Load: info.ModTime().Equal(l.lastEdited)): a change made by ANOTHER
+     writer is visible to the living loader iff it carries a time DIFFERENT from the one the loader
+     cached at - later or earlier does not matter. *)
+  Definition visible_ok (ts : tstate) (o : op) : bool :=
+    match o with
+    | OTear _ t | OForeign _ t =>
+      match ts_cached_at ts with Some c => negb (t =? c) | None => true end
+    | _ => true
+    end.
+
+  Fixpoint foreign_visible (ts : tstate) (ops : list op) : bool :=
+    match ops with
+    | [] => true
+    | o :: r => visible_ok ts o && foreign_visible (tstep ts o) r
     end.
 
   (* operations the property speaks about *)
@@ -396,7 +493,7 @@ End Codec.
 Definition simple_op (o : op) : bool :=
   match o with
   | OStore s _ => session_ok s
-  | OLoad | OFresh => true
+  | OLoad | OFresh | OScribble => true
   | _ => false
   end.
 
